@@ -128,6 +128,8 @@ type SimAWS struct {
 	Loose   map[string]SimInst // instances acquired from a fleet and not (yet) attached
 	Killed  map[string]bool    // instances submitted to TerminateInstances
 	NeverReady bool
+	ReadyK     int // with NeverReady: the first ReadyK instances of the latest fleet do report running
+	lastFleetLo, lastFleetN int
 	OnDescribe func()
 }
 
@@ -452,6 +454,7 @@ func (e *SimEC2) CreateFleet(in *ec2.CreateFleetInput) (*ec2.CreateFleetOutput, 
 	c.Ok = true
 	s.J.Add(c)
 	lo := s.FleetN
+	s.lastFleetLo, s.lastFleetN = lo, int(total)
 	out := &ec2.CreateFleetOutput{}
 	// spread the ids over two response entries to exercise the caller's flattening; also attach a
 	// spurious error, which the caller must ignore when instances are present
@@ -479,14 +482,23 @@ func (e *SimEC2) DescribeInstanceStatusPages(in *ec2.DescribeInstanceStatusInput
 	never := s.NeverReady || s.J.Hit("status", s.J.CurG())
 	s.J.Add(Call{Op: "status", G: s.J.CurG(), Ok: !never, A: len(in.InstanceIds), B: b2i(aws.BoolValue(in.IncludeAllInstances))})
 	s.mu.Unlock()
-	state := "running"
-	if never {
-		state = "pending"
+	readyK, fleetLo := s.ReadyK, s.lastFleetLo
+	if readyK > s.lastFleetN-1 { // "never" means: at least one instance stays pending
+		readyK = s.lastFleetN - 1
+	}
+	stateOf := func(id *string) string {
+		if !never {
+			return "running"
+		}
+		if k, err := strconv.Atoi(strings.TrimPrefix(aws.StringValue(id), "f")); err == nil && k-fleetLo < readyK {
+			return "running"
+		}
+		return "pending"
 	}
 	mk := func(ids []*string) *ec2.DescribeInstanceStatusOutput {
 		o := &ec2.DescribeInstanceStatusOutput{}
 		for _, id := range ids {
-			o.InstanceStatuses = append(o.InstanceStatuses, &ec2.InstanceStatus{InstanceId: id, InstanceState: &ec2.InstanceState{Name: aws.String(state)}})
+			o.InstanceStatuses = append(o.InstanceStatuses, &ec2.InstanceStatus{InstanceId: id, InstanceState: &ec2.InstanceState{Name: aws.String(stateOf(id))}})
 		}
 		return o
 	}
